@@ -39,6 +39,12 @@ Theorem C25_string_token_concat :
 Proof. exact text_string_value_concat. Qed.
 Print Assumptions C25_string_token_concat.
 
+(* the model's out-of-fuel outcome is unreachable: on EVERY input parseString
+   returns a string, unexpected-EOF or a syntax error *)
+Theorem C25_parse_string_total : forall inp, parse_string inp <> SErr SFuel.
+Proof. exact parse_string_total. Qed.
+Print Assumptions C25_parse_string_total.
+
 (* with EmitASCII every output byte is printable ASCII *)
 Theorem C25_emit_ascii_printable :
   forall bs, Forall (fun b => 32 <= b2n b <= 126) (append_string true bs).
